@@ -25,6 +25,7 @@ impl Ord for BigNum { #[verifier::external_body] fn cmp(&self, o: &BigNum) -> (r
 /// its API is given (ASSUMED std semantics) so that an edit that starts using another reader still reaches the verifier
 pub struct BTreeMap<K, V> { pub entries: Vec<(K, V)> }
 impl<K, V> BTreeMap<K, V> {
+    #[verifier::external_body] pub fn new() -> (r: Self) ensures r.entries@ == Seq::<(K, V)>::empty() { unimplemented!() }
     #[verifier::external_body] pub fn iter(&self) -> (r: core::slice::Iter<'_, (K, V)>)
         ensures r.remaining() == refs(self.entries@), r.obeys_prophetic_iter_laws(), r.decrease() is Some { unimplemented!() }
     #[verifier::external_body] pub fn len(&self) -> (r: usize) ensures r == self.entries@.len() { unimplemented!() }
@@ -35,3 +36,17 @@ impl<K, V> BTreeMap<K, V> {
         ensures r is Some ==> (exists|i: int| 0 <= i < self.entries@.len() && self.entries@[i].0 == *k && self.entries@[i].1 == *r->Some_0),
                 r is None ==> !(exists|i: int| 0 <= i < self.entries@.len() && self.entries@[i].0 == *k) { unimplemented!() }
 }
+/// `amount_or_zero` on a bundle without entries: `get` finds nothing, so the quantity is the default 0 (ASSUMED with amount_or_zero)
+#[verifier::external_body] pub proof fn lemma_amt_empty(ma: MultiAsset, pid: PolicyID, aname: AssetName)
+    requires ma.0.entries@.len() == 0 ensures amt(ma, pid, aname).0 == 0 { }
+/// quantity of an asset in the optional asset part of a Value (no asset part = 0)
+pub open spec fn qty(o: Option<MultiAsset>, pid: PolicyID, aname: AssetName) -> int { match o { Some(m) => amt(m, pid, aname).0 as int, None => 0 } }
+pub open spec fn ents(o: Option<MultiAsset>) -> Seq<(PolicyID, Assets)> { match o { Some(m) => m.0.entries@, None => Seq::empty() } }
+/// every quantity on the left does not exceed the quantity of the same asset on the right
+pub open spec fn oma_le(l: Option<MultiAsset>, r: Option<MultiAsset>) -> bool {
+    forall|i: int, j: int| 0 <= i < ents(l).len() && 0 <= j < ents(l)[i].1.0.entries@.len() ==> ents(l)[i].1.0.entries@[j].1.0 <= qty(r, ents(l)[i].0, ents(l)[i].1.0.entries@[j].0)
+}
+pub open spec fn ord_of(le: bool, ge: bool) -> Option<core::cmp::Ordering> {
+    if le && ge { Some(core::cmp::Ordering::Equal) } else if le { Some(core::cmp::Ordering::Less) } else if ge { Some(core::cmp::Ordering::Greater) } else { None }
+}
+impl Clone for MultiAsset { #[verifier::external_body] fn clone(&self) -> (r: Self) ensures r == *self { unimplemented!() } }
